@@ -48,8 +48,8 @@ def segs(rng, s):
     return out
 
 
-def line_cases():
-    for lim in [0, 1, 5, 20, 100, 4094, 8189, 8190, 8191, 20000]:
+def line_cases(thorough=False):
+    for lim in ([0, 1, 5, 20, 100, 4094, 8189, 8190, 8191, 20000] if not thorough else [0, 1, 2, 3, 5, 13, 14, 15, 16, 17, 20, 46, 47, 64, 100, 255, 256, 1000, 4094, 8000, 8189, 8190, 8191, 8192, 20000, 2**31]):
         eff = doc_eff_line(lim)
         targets = [eff - 1, eff, eff + 1] if eff > 0 else [10, 9000, 30000]
         for n in targets:
@@ -61,8 +61,8 @@ def line_cases():
             yield lim, n, line + b"\r\nHost: x\r\n\r\n"
 
 
-def field_count_cases():
-    for lim in [0, 1, 2, 7, 100, 101, 32768, 40000]:
+def field_count_cases(thorough=False):
+    for lim in ([0, 1, 2, 7, 100, 101, 32768, 40000] if not thorough else [0, 1, 2, 3, 4, 7, 10, 50, 99, 100, 101, 500, 1000, 32767, 32768, 32769, 40000]):
         eff = doc_eff_fields(lim)
         for n in sorted(set([max(eff - 1, 0), eff, eff + 1])):
             if n > 1200 and lim not in (32768, 40000):
@@ -73,8 +73,8 @@ def field_count_cases():
             yield lim, n, b"GET / HTTP/1.1\r\n" + hdrs + b"\r\n"
 
 
-def field_size_cases():
-    for lim in [0, 1, 8, 10, 100, 8190, 8191, 20000]:
+def field_size_cases(thorough=False):
+    for lim in ([0, 1, 8, 10, 100, 8190, 8191, 20000] if not thorough else [0, 1, 4, 5, 6, 8, 10, 16, 64, 100, 1000, 8189, 8190, 8191, 20000, 100000]):
         eff = doc_eff_field_size(lim)
         sizes = [eff - 3, eff - 2, eff - 1, eff, eff + 1] if eff > 0 else [100, 9000, 50000]
         for n in sizes:
@@ -177,7 +177,7 @@ def run(ctx):
                 obs, rec = lp.run_impl(spec, chunks, [[]])
                 model_cases.append((lp.model_expr(spec, chunks, [[]], rec), obs, {"what": what, "spec_key": key, "len": len(stream)}))
 
-    for lim, n, stream in line_cases():
+    for lim, n, stream in line_cases(not ctx.quick()):
         eff = doc_eff_line(lim)
         spec = lp.make_spec(limit_request_line=lim)
         judge("request line of %d bytes, limit_request_line=%d" % (n, lim), spec, stream,
@@ -188,13 +188,13 @@ def run(ctx):
         judge("request line of %d bytes after a PROXY line, limit_request_line=%d" % (n, lim), pspec,
               b"PROXY TCP4 192.168.0.1 192.168.0.11 56324 443\r\n" + stream,
               must_reject=(eff > 0 and n > eff), must_accept=(eff == 0 or (n <= eff and eff >= 46)), size_errors=("LimitRequestLine",), key=("pline", lim, n))
-    for lim, n, stream in field_count_cases():
+    for lim, n, stream in field_count_cases(not ctx.quick()):
         eff = doc_eff_fields(lim)
         spec = lp.make_spec(limit_request_fields=lim)
         judge("%d header fields, limit_request_fields=%d" % (n, lim), spec, stream,
               must_reject=(n > eff), must_accept=(n <= eff), size_errors=("LimitRequestHeaders",), key=("fields", lim, n))
         ctx.hist("family", "field-count")
-    for lim, n, stream in field_size_cases():
+    for lim, n, stream in field_size_cases(not ctx.quick()):
         eff = doc_eff_field_size(lim)
         spec = lp.make_spec(limit_request_field_size=lim)
         # the size of a field may or may not include its CRLF: both readings are accepted in the 2-byte window
@@ -212,13 +212,18 @@ def run(ctx):
              lp.make_spec(limit_request_fields=20, limit_request_field_size=0)]
     if not ctx.quick():
         specs.append(lp.make_spec())
+        specs.append(lp.make_spec(limit_request_line=8190, limit_request_fields=3, limit_request_field_size=8190))
+        specs.append(lp.make_spec(limit_request_line=1, limit_request_fields=1, limit_request_field_size=1))
+        specs.append(lp.make_spec(limit_request_line=0, limit_request_fields=5, limit_request_field_size=200))
     kinds = ["request-line", "request-line-after-proxy-line", "proxy-line", "header-lines", "header-no-crlf", "chunk-size-digits", "chunk-extension", "trailer-lines", "trailer-no-crlf"]
     for spec in specs:
         bound = bound_of(spec)
         for kind in kinds:
             if "proxy" in kind:
                 spec = dict(spec, proxy_protocol=True)
-            for read in ([7, 1024, 8192] if bound < 100000 else [8192]):
+            if doc_eff_line(spec["limit_request_line"]) == 0 and kind in ("request-line", "request-line-after-proxy-line", "proxy-line"):
+                continue          # limit_request_line = 0 is documented as "unlimited": no bound is claimed
+            for read in (([7, 1024, 8192] if ctx.quick() else [1, 3, 7, 100, 1023, 1024, 4096, 8191, 8192]) if bound < 100000 else [8192]):
                 cutoff = 64 * bound
                 pulled, how = endless(spec, kind, read, cutoff)
                 ctx.count_case(("endless", kind, read, bound), True)
